@@ -508,18 +508,18 @@ func (st *Runtime) executeList(list *ListNode) (returnValue reflect.Value) {
 				var loopReturnValue reflect.Value
 				for !end && !loopReturnValue.IsValid() {
 					if isSet {
-						if isLet {
-							if keyVarSlot >= 0 {
+						// an underscore discards the index or the value, like in every other assignment
+						if keyVarSlot >= 0 && node.Set.Left[keyVarSlot].Type() != NodeUnderscore {
+							if isLet {
 								st.variables[node.Set.Left[keyVarSlot].String()] = indexValue
-							}
-							if valVarSlot >= 0 {
-								st.variables[node.Set.Left[valVarSlot].String()] = rangeValue
-							}
-						} else {
-							if keyVarSlot >= 0 {
+							} else {
 								st.executeSet(node.Set.Left[keyVarSlot], indexValue)
 							}
-							if valVarSlot >= 0 {
+						}
+						if valVarSlot >= 0 && node.Set.Left[valVarSlot].Type() != NodeUnderscore {
+							if isLet {
+								st.variables[node.Set.Left[valVarSlot].String()] = rangeValue
+							} else {
 								st.executeSet(node.Set.Left[valVarSlot], rangeValue)
 							}
 						}
